@@ -10,8 +10,8 @@ import typing
 
 import z3
 
-from .symexec import (SBool, SDict, SFloat, SFunc, SInt, SList, SObj, SOpaque, SSet, SStr, STuple, SV, Unsupported,
-                      _Tagged, _sorted_any)
+from .symexec import (SBool, SDict, SDictItems, SFloat, SFunc, SInt, SList, SObj, SOpaque, SSeq, SSet, SStr, STuple, SV,
+                      Unsupported, _Tagged, _sorted_any)
 
 MODELS = {}
 TRUSTED = []          # human-readable list of assumed contracts
@@ -77,7 +77,9 @@ def _isinstance_one(I, v, T):
     if isinstance(v, SList):
         return T is list
     if isinstance(v, SDict):
-        return T is dict
+        return T is dict or getattr(T, "__name__", "") == "Mapping"
+    if isinstance(v, SSeq):
+        return T is list
     if isinstance(v, SSet):
         return T in (set, frozenset)
     if isinstance(v, SObj):
@@ -255,8 +257,11 @@ def _dict(I, args, kwargs):
     d = SDict()
     if args:
         a = args[0]
+        if isinstance(a, SV):
+            a = I.view(a)
         if isinstance(a, SDict):
             d.items.update(a.items)
+            d.rest, d.rest_maps, d.rest_dom = a.rest, list(a.rest_maps), a.rest_dom
         else:
             for p in I.iterate(a):
                 k, v = I.iterate(p)
@@ -358,6 +363,34 @@ def _isfinite(I, args, kwargs):
     I.raise_(TypeError, "must be real number")
 
 
+class Domains:
+    """assumed library bijections on canonical forms, as uninterpreted predicates/functions (trusted base):
+    isoformat(isoparse(s)[.date()]) == s for canonical RFC 3339 s; str(UUID(s)) == s for canonical lower-case s"""
+    _inst = None
+
+    def __init__(self):
+        S, B = z3.StringSort(), z3.BoolSort()
+        self.canon_date = z3.Function("canonical_rfc3339_date", S, B)
+        self.canon_datetime = z3.Function("canonical_rfc3339_datetime", S, B)
+        self.canon_uuid = z3.Function("canonical_uuid", S, B)
+        self.date_iso = z3.Function("isoformat_of_date_of_isoparse", S, S)
+        self.dt_iso = z3.Function("isoformat_of_isoparse", S, S)
+        self.uuid_str = z3.Function("str_of_uuid", S, S)
+
+    @classmethod
+    def get(cls):
+        if cls._inst is None:
+            cls._inst = Domains()
+        return cls._inst
+
+
+def uuid_str(I, v):
+    D = Domains.get()
+    t = I.to_str_term(v.fields["__text__"])
+    I.fact(z3.Implies(D.canon_uuid(t), D.uuid_str(t) == t))
+    return SStr(D.uuid_str(t))
+
+
 def _install_third_party():
     from dateutil.parser import isoparse
     import uuid
@@ -372,6 +405,8 @@ def _install_third_party():
         if not isinstance(v, (str, SStr)):
             I.raise_(TypeError, "isoparse needs str")
         t = I.to_str_term(v)
+        D = Domains.get()
+        I.fact(z3.Implies(z3.Or(D.canon_date(t), D.canon_datetime(t)), Z.iso_ok(t)))
         if not I.branch(Z.iso_ok(t)):
             I.raise_(ValueError, "invalid isoformat string")
         import datetime
@@ -384,6 +419,27 @@ def _install_third_party():
         (d,) = args
         return SObj(_dt.date, {"__of__": d})
 
+    @model(_dt.date.isoformat, "date.isoformat(): equals the parsed text for canonical RFC 3339 full-date strings")
+    def _date_iso(I, args, kwargs):
+        D = Domains.get()
+        (d,) = args
+        src = d.fields.get("__of__") if isinstance(d, SObj) else None
+        if src is None or "__iso__" not in src.fields:
+            raise Unsupported("isoformat of a date of unknown origin")
+        t = I.to_str_term(src.fields["__iso__"])
+        I.fact(z3.Implies(D.canon_date(t), D.date_iso(t) == t))
+        return SStr(D.date_iso(t))
+
+    @model(_dt.datetime.isoformat, "datetime.isoformat(): equals the parsed text for canonical RFC 3339 date-time strings")
+    def _dt_iso(I, args, kwargs):
+        D = Domains.get()
+        d = args[0]
+        if not isinstance(d, SObj) or "__iso__" not in d.fields:
+            raise Unsupported("isoformat of a datetime of unknown origin")
+        t = I.to_str_term(d.fields["__iso__"])
+        I.fact(z3.Implies(D.canon_datetime(t), D.dt_iso(t) == t))
+        return SStr(D.dt_iso(t))
+
     @model(uuid.UUID, "uuid.UUID(str): ValueError unless the text is one of the accepted spellings (uninterpreted predicate)")
     def _uuid(I, args, kwargs):
         Z = I.Z
@@ -393,6 +449,7 @@ def _install_third_party():
         if not isinstance(v, (str, SStr)):
             I.raise_(TypeError, "UUID needs str")
         t = I.to_str_term(v)
+        I.fact(z3.Implies(Domains.get().canon_uuid(t), Z.uuid_ok(t)))
         if not I.branch(Z.uuid_ok(t)):
             I.raise_(ValueError, "badly formed hexadecimal UUID string")
         return SObj(uuid.UUID, {"__text__": SStr(t)})
@@ -520,6 +577,31 @@ def call_method(I, recv, name, args, kwargs):
                     return i
             I.raise_(ValueError, "not in tuple")
     # ---- dicts
+    if isinstance(recv, SDict) and recv.rest is not None and name in ("get", "pop", "setdefault") and args \
+            and I.hashable(args[0]) not in recv.items:
+        k = I.hashable(args[0])
+        if not isinstance(k, str):
+            raise Unsupported("non-string key on a dict with symbolic remainder")
+        v = z3.Select(recv.rest, z3.StringVal(k))
+        if I.branch(Z.rec["absent"](v)):
+            if name == "setdefault":
+                recv.items[k] = args[1] if len(args) > 1 else None
+                return recv.items[k]
+            if len(args) > 1:
+                return args[1]
+            if name == "pop":
+                I.raise_(KeyError, k)
+            return None
+        if name == "pop":
+            recv.rest = z3.Store(recv.rest, z3.StringVal(k), Z.con["absent"]())
+        out = SV(v)
+        for f in recv.rest_maps:
+            out = f(out)
+        return out
+    if isinstance(recv, SDict) and recv.rest is not None and name == "items":
+        return SDictItems(recv)
+    if isinstance(recv, SDict) and recv.rest is not None and name in ("keys", "values"):
+        raise Unsupported("keys()/values() of a dict with symbolic remainder")
     if isinstance(recv, SDict):
         if name == "get":
             k = I.hashable(args[0])
@@ -546,7 +628,16 @@ def call_method(I, recv, name, args, kwargs):
         if name == "update":
             if args:
                 src = args[0]
+                if isinstance(src, SV):
+                    src = I.view(src)
                 if isinstance(src, SDict):
+                    if src.rest is not None:
+                        if recv.rest is not None or recv.items:
+                            raise Unsupported("merging two dicts with symbolic remainders")
+                        recv.rest, recv.rest_maps, recv.rest_dom = src.rest, list(src.rest_maps), src.rest_dom
+                    elif recv.rest is not None:
+                        for k in src.items:
+                            recv.rest = z3.Store(recv.rest, z3.StringVal(k), Z.con["absent"]()) if isinstance(k, str) else recv.rest
                     recv.items.update(src.items)
                 else:
                     for p in I.iterate(src):
@@ -555,7 +646,7 @@ def call_method(I, recv, name, args, kwargs):
             recv.items.update(kwargs)
             return None
         if name == "copy":
-            return SDict(recv.items)
+            return SDict(recv.items, recv.rest, recv.rest_maps, recv.rest_dom)
     # ---- sets
     if isinstance(recv, SSet):
         if name == "add":
